@@ -53,7 +53,7 @@ theorem skipBits_append (n : Nat) (l rest : Bits) (h : l.length = n) :
 
 theorem skipUvlcAux_replicate (k : Nat) : ∀ (fuel lz : Nat) (r : Bits), k < fuel → lz + k ≤ 32 →
     skipUvlcAux fuel (List.replicate k false ++ true :: r) lz =
-      if lz + k > 0 then skipBits (lz + k) r else some r := by
+      if lz + k > 0 ∧ lz + k < 32 then skipBits (lz + k) r else some r := by
   induction k with
   | zero =>
     intro fuel lz r hf _
@@ -78,12 +78,12 @@ theorem skipUvlc_encode (u : Uvlc) (h : u.WF) (rest : Bits) :
   by_cases h0 : u.z = 0
   · simp [h0, natToBits]
   · have : 0 < u.z := by omega
-    simp [this]
+    simp [this, hz']
 
-/-- `uvlc()` with exactly 32 leading zeros (value 2^32 − 1): the syntax has NO value bits, but the
-    code skips 32 more bits (or fails when fewer than 32 follow) -/
+/-- `uvlc()` with exactly 32 leading zeros (value 2^32 − 1): the syntax has NO value bits and the code
+    reads none (before the repair in /repo it skipped 32 further bits) -/
 theorem skipUvlc_z32 (x : Nat) (rest : Bits) :
-    skipUvlc (encodeUvlc ⟨32, x⟩ ++ rest) = skipBits 32 rest := by
+    skipUvlc (encodeUvlc ⟨32, x⟩ ++ rest) = some rest := by
   simp only [skipUvlc, encodeUvlc, Nat.lt_irrefl, if_false, List.append_assoc, List.singleton_append,
     List.append_nil]
   rw [skipUvlcAux_replicate 32 34 0 _ (by omega) (by omega)]
